@@ -3,7 +3,8 @@
 E2 (unmerged): a harness subclass of a real simulation returns seeded element arrays from a *slot table*
 (which group contributes to which of K, C, M, F; None slots; lower-dimensional groups "added by a user subclass";
 real / complex values; dof_n in {1,2,3}).  All operation sequences up to depth 3 (quick) / 4 (thorough) over
-{assemble, add Lagrange condition, clear BCs, swap slot table, new values, switch value kind, replace mesh, renumber};
+{assemble, add Lagrange condition, clear BCs, swap slot table, new values, switch value kind, replace mesh, renumber,
+refresh the element buffers in place};
 after every operation the real `Assembly()` is compared with a dense triple loop written from the documented dof
 convention (node*dof_n + component)."""
 from __future__ import annotations
@@ -17,7 +18,9 @@ from zoo import meshes as Z
 
 PROPERTY = "C03"
 
-OPS = ["assemble", "lagrange", "clearbc", "slots", "values", "kind", "mesh", "renumber"]
+# "inplace": from then on the harness keeps its element arrays in persistent buffers and refreshes them IN PLACE (same array objects,
+# new values) before announcing the change with Need_Update() - what a user subclass that recycles its buffers does
+OPS = ["assemble", "lagrange", "clearbc", "slots", "values", "kind", "mesh", "renumber", "inplace"]
 SLOT_TABLES = 5
 KINDS = ["real", "real_then_complex", "complex", "complex_then_real"]
 MESHES = {
@@ -59,6 +62,10 @@ def cases(tier, seed):
     # (ii) meshes on which NO matrix slot receives two contributions (a single element, elements sharing no node) with every /
     # scrambled node numbering, (iii) a caller that edits the returned matrices in place between two reads
     out.append({"kind": "large", "n": 160 if tier == "quick" else 200, "dof_n": 2})
+    if tier == "thorough":
+        # (iv) more than 2^22 element entries in ONE slot (20 x 20 x 19 HEXA8, 3 dofs per node: 4.4e6 entries, ~1.2 GB): block-wise
+        # code paths of a reduction that only very large slots enter
+        out.append({"kind": "large", "n": [20, 20, 19], "dof_n": 3})
     for et, nel in (("TRI3", 1), ("QUAD4", 1), ("TRI3", 2), ("QUAD4", 2), ("TETRA4", 1)):
         for dof_n in (1, 2):
             out.append({"kind": "isolated", "elemType": et, "nel": nel, "dof_n": dof_n})
@@ -70,6 +77,10 @@ def cases(tier, seed):
             for form in ("mass", "nonsym", "linear"):
                 for scale in (1.0, 1e-14, 1e12):  # magnitudes of other unit systems: nothing may be dropped or clipped
                     out.append({"kind": "form", "elemType": et, "dof_n": dof_n, "form": form, "scale": scale})
+                # a Field on a group that does NOT use every node of the mesh: mesh with an orphan node; a boundary group
+                out.append({"kind": "form", "elemType": et, "dof_n": dof_n, "form": form, "scale": 1.0, "group": "orphan"})
+                if form != "nonsym":
+                    out.append({"kind": "form", "elemType": et, "dof_n": dof_n, "form": form, "scale": 1.0, "group": "boundary"})
     return out
 
 
@@ -102,6 +113,7 @@ def _probe_class():
         probe_slot = 0
         probe_kind = "real"
         probe_epoch = 0
+        probe_inplace = False
 
         def Get_unknowns(self, problemType=None):
             return ["a", "b", "c"][: self.probe_dof_n]
@@ -148,6 +160,14 @@ def _probe_class():
                     cplx = (kind == "complex") or (kind == "real_then_complex" and gi > 0) or (kind == "complex_then_real" and gi == 0)
                     if cplx:
                         a = a + 1j * r.normal(size=shape)
+                    if self.probe_inplace:
+                        bk = (g.elemType.name, g.Ne, si, dof_n, bool(cplx))
+                        bufs = self.__dict__.setdefault("probe_buffers", {})
+                        if bk in bufs and bufs[bk].shape == a.shape:
+                            bufs[bk][...] = a
+                            a = bufs[bk]
+                        else:
+                            bufs[bk] = a
                     arrs.append(a)
                 out[g] = tuple(arrs)
             return out
@@ -244,6 +264,10 @@ def _run_history(case):
             simu.probe_slot = (simu.probe_slot + 1) % SLOT_TABLES
             simu.Need_Update()
         elif op == "values":
+            simu.probe_epoch += 1
+            simu.Need_Update()
+        elif op == "inplace":
+            simu.probe_inplace = True
             simu.probe_epoch += 1
             simu.Need_Update()
         elif op == "kind":
@@ -450,10 +474,16 @@ def _run_form(case):
     d = Z.dim_of(et)
     zm = Z.template_2d(et, 1) if d == 2 else Z.template_3d(et, 1)
     A, b = Z.generic_affine(rng("c03form", et), d), np.zeros(3)
-    mesh = zm.mapped(A, b).build()
-    g = mesh.groupElem
+    grp = case.get("group", "all")
+    zm = zm.mapped(A, b)
+    if grp == "orphan":
+        zm = zm.with_orphan()
+    mesh = zm.build()
+    g = mesh.groupElem if grp != "boundary" else mesh.Get_list_groupElem(d - 1)[0]
     field = Field(g, dof_n)
     key = dict(elemType=et, dof_n=dof_n, form=form)
+    if grp != "all":
+        key["group"] = grp
     Ndof = g.Ncoords * dof_n
     sc = float(case.get("scale", 1.0))
     key["scale"] = f"{sc:g}"
@@ -494,7 +524,7 @@ def _run_form(case):
     v = []
     if got.shape != ref.shape or np.abs(got - ref).max() > 1e-13 * max(np.abs(ref).max(), 1e-300):
         v.append(viol("form_assemble", f"{form} form on {et}, dof_n={dof_n}: Assemble() != scatter-add of Integrate_e()", **key))
-    return {"violations": v, "fingerprint": fp(et, dof_n, form, got), "nontrivial": True, "transitions": 2}
+    return {"violations": v, "fingerprint": fp(et, dof_n, form, grp, got), "nontrivial": True, "transitions": 2}
 
 
 def _run_large(case):
@@ -503,19 +533,24 @@ def _run_large(case):
     from EasyFEA import Models, Simulations
 
     n, dof_n = case["n"], case["dof_n"]
-    xs = np.linspace(0.0, 1.0, n + 1)
-    X, Y = np.meshgrid(xs, xs, indexing="ij")
-    coords = np.zeros(((n + 1) ** 2, 3))
-    coords[:, 0], coords[:, 1] = X.ravel(), Y.ravel()
-    idx = np.arange((n + 1) ** 2).reshape(n + 1, n + 1)
-    con = np.stack([idx[:-1, :-1].ravel(), idx[1:, :-1].ravel(), idx[1:, 1:].ravel(), idx[:-1, 1:].ravel()], axis=1)
-    zm = Z.ZooMesh(coords, {"QUAD4": con}, {}, f"grid{n}")
-    simu = Simulations.Elastic(zm.build(with_boundary=False), Models.Elastic.Isotropic(2, E=2.0, v=0.3, planeStress=True, thickness=0.7))
+    if isinstance(n, list):
+        zm = Z.template_3d("HEXA8", k=tuple(n))
+        simu = Simulations.Elastic(zm.build(with_boundary=False), Models.Elastic.Isotropic(3, E=2.0, v=0.3))
+        n = "x".join(map(str, n))
+    else:
+        xs = np.linspace(0.0, 1.0, n + 1)
+        X, Y = np.meshgrid(xs, xs, indexing="ij")
+        coords = np.zeros(((n + 1) ** 2, 3))
+        coords[:, 0], coords[:, 1] = X.ravel(), Y.ravel()
+        idx = np.arange((n + 1) ** 2).reshape(n + 1, n + 1)
+        con = np.stack([idx[:-1, :-1].ravel(), idx[1:, :-1].ravel(), idx[1:, 1:].ravel(), idx[:-1, 1:].ravel()], axis=1)
+        zm = Z.ZooMesh(coords, {"QUAD4": con}, {}, f"grid{n}")
+        simu = Simulations.Elastic(zm.build(with_boundary=False), Models.Elastic.Isotropic(2, E=2.0, v=0.3, planeStress=True, thickness=0.7))
     simu.rho = 1.3
     pt = simu.problemType
     Ndof = simu.mesh.Nn * dof_n
     key = dict(n=n, dof_n=dof_n)
-    if Ndof ** 2 < 2 ** 31:
+    if Ndof ** 2 < 2 ** 31 and not isinstance(case["n"], list):
         return {"violations": [], "skipped": "mesh too small for the 32-bit threshold", "fingerprint": "small", "nontrivial": False}
     got = simu.Assembly(pt)
     loc = simu.Construct_local_matrix_system(pt)
@@ -537,7 +572,7 @@ def _run_large(case):
         err = d.max() if d.nnz else 0.0
         sc = abs(ref).max()
         if got[si].shape != ref.shape or err > 1e-12 * sc:
-            v.append(viol("assembly_mismatch_large", f"{Ndof} dofs (Ndof^2 = {Ndof ** 2:.3e} >= 2^31): {name} differs from the COO scatter-add by {err:.3e} (scale {sc:.2e})", slot=name, **key))
+            v.append(viol("assembly_mismatch_large", f"{Ndof} dofs (Ndof^2 = {Ndof ** 2:.3e}, mesh {n}): {name} differs from the COO scatter-add by {err:.3e} (scale {sc:.2e})", slot=name, **key))
     return {"violations": v, "fingerprint": fp("large", n, float(abs(got[0]).sum())), "nontrivial": True, "transitions": 2}
 
 
